@@ -595,11 +595,11 @@ def ordered_periodic_sets(viol, stats):
 def _shard_C16(tier, shard, n_shards):
     viol = {}
     stats = dict(evaluations=0, multisets=0, cases=set())
-    k = 8 if tier == 'quick' else 64
+    k = 8 if tier == 'quick' else 256
     centres = [i / 64.0 for i in range(64)]
     if shard == 0:
         ordered_periodic_sets(viol, stats)
-        cc = compute_centres(4 if tier == 'quick' else 5, viol, stats)
+        cc = compute_centres(4 if tier == 'quick' else 6, viol, stats)
     else:
         cc = compute_centres(3, {}, dict(evaluations=0, multisets=0, cases=set()))
     allc = sorted(set(centres) | set(cc) | {0.3, 0.7, 0.1, 0.9, float(np.nextafter(0.5, 0)),
@@ -643,7 +643,7 @@ def run_C16(tier):
              'wrap positions and the centre, plus the 1/8 grid; both directions; plus all 45 ORDERED '
              'periodic index sets of d=3 on point sets needing a different shift per dimension. A case is one '
              '(centre, d, periodic set, direction) tuple; distinct by construction.'.format(
-                 4 if tier == 'quick' else 5, 8 if tier == 'quick' else 64),
+                 4 if tier == 'quick' else 6, 8 if tier == 'quick' else 256),
         multisets=res[0]['multisets'], centres=sum(r['centres'] for r in res),
         end_to_end_witness_executions=n_w,
         samples=[dict(center=0.3, inverse=True, x=float(np.nextafter(0.2, 0)), d=2, periodic=[0]),
